@@ -156,6 +156,8 @@ class Taint:
             elif tag in ("f", "proj", "elem", "mut"):
                 if tag != "mut":
                     out.add(x)
+                elif x in getattr(fa, "read_filled", {}):
+                    work.append(fa.read_filled[x])      # the buffer holds what that read delivered
                 work.append(x[1])
             elif tag == "idx":
                 out.add(x)
@@ -244,13 +246,19 @@ def _pat_names(pat):
 
 
 def default_sources(ctx):
-    """caller-chosen integers that the properties quantify over: coordinates of the lookups, the id handed to zxy"""
+    """caller-chosen integers that the properties quantify over: the coordinates of the lookups, the id handed to the back-conversion.
+    Found by role, not by name: public archive functions that reach the coordinate→id conversion (all their integer parameters), and the function
+    that calls the inverse curve (likewise)."""
     src = {}
+    enc = set(f["path"] for f in ctx.user_fns() if any("xy2h_discrete" in c["fn"] for c in calls(f["body"])))
+
+    def ints(f):
+        return tuple(p["pat"]["name"] for p in f["params"] if p["pat"].get("k") == "Bind" and (p["ty"] or "") in absint.INT_TYPES)
     for f in ctx.user_fns():
-        if f["vis"] == "pub" and f["path"].startswith("pmtiles::PMTiles") and f["path"].rpartition("::")[2] in ("get_tile", "get_tile_async"):
-            src[f["path"]] = ("x", "y", "z")
-        if f["path"] == "util::tile_id::zxy":
-            src[f["path"]] = ("tile_id",)
+        if f["vis"] == "pub" and f["path"] not in enc and (ctx.calls_deep(f) & enc) and len(ints(f)) >= 3:
+            src[f["path"]] = ints(f)
+        if any("h2xy_discrete" in c["fn"] for c in calls(f["body"])) and ints(f):
+            src[f["path"]] = ints(f)
     return src
 
 
@@ -552,8 +560,8 @@ def r_taint_index(ctx, extra=None):
                 bt = e.d.get("base_ty") or ""
                 if "HashMap" in bt or "BTreeMap" in bt:
                     continue
-                t_idx = tn.tainted(fa, idx)
-                t_base = tn.tainted(fa, base)
+                t_idx = tn.tainted(fa, idx) or tn.tainted(fa, e.d["idx"])          # (the raw terms keep the link from a buffer to the read that filled it)
+                t_base = tn.tainted(fa, base) or tn.tainted(fa, e.d["base"])
                 if not (t_idx or t_base):
                     continue
                 verdict, why = False, "index %s into input-derived/sized container without a visible bound" % tstr(idx)[:60]
@@ -914,41 +922,62 @@ def r_filter_complete(ctx):
 
 
 def r_partial_same(ctx):
-    """R-PARTIAL-SAME: full and partial opens are the same code with `..` as the range"""
+    """R-PARTIAL-SAME: full and partial opens are the same code with `..` as the range.  Roles come from the signatures: the range parameter is the one
+    bounded by RangeBounds, the source is the other one; an entry point with a range parameter forwards it, one without passes `..`"""
     obs = []
     ops = set(f["path"] for f in ctx.openers())
     if not ops:
         return no_anchor("R-PARTIAL-SAME", "opener")
-    wrappers = [f for f in ctx.user_fns() if f["vis"] == "pub" and any(c["fn"] in ops for c in calls(f["body"]))]
-    for f in wrappers:
+
+    def roles(f):
+        rng = [i for i, p in enumerate(f["params"]) if "RangeBounds" in (p["ty"] or "")]
+        src = [i for i, p in enumerate(f["params"]) if "RangeBounds" not in (p["ty"] or "")]
+        return (rng[0] if len(rng) == 1 else None), (src[0] if len(src) == 1 else None)
+    # the family of entry points: functions that hand their result straight from the opener, or from another member of the family
+    family = set(ops)
+    grew = True
+    while grew:
+        grew = False
+        for f in ctx.user_fns():
+            if f["path"] not in family and any(c["fn"] in family for c in calls(f["body"])) and roles(f)[1] is not None:
+                family.add(f["path"])
+                grew = True
+    n_full = n_part = 0
+    for f in ctx.user_fns():
+        if f["path"] not in family or f["path"] in ops:
+            continue
         fa = ctx.fa(f)
+        my_rng, my_src = roles(f)
         for p in fa.paths:
             v = unmut(p.value)
-            if not is_call_to(v, lambda s: s in ops):
+            if not is_call_to(v, lambda s_: s_ in family):
                 obs.append(Ob("R-PARTIAL-SAME", f["path"], "forwards to the shared opener", False, "returns %s" % tstr(v)[:80], rel(f["loc"])))
                 continue
-            rng = v[2][1] if len(v[2]) > 1 else None
-            partial = "partial" in f["path"].rpartition("::")[2]
-            if partial:
-                ok = rng == V("param:tiles_filter_range")
+            h = ctx.fn(v[1])
+            h_rng, h_src = roles(h)
+            if h_src is None or h_src >= len(v[2]) or (h_rng is not None and h_rng >= len(v[2])):
+                obs.append(Ob("R-PARTIAL-SAME", f["path"], "forwards to the shared opener", False, "callee %s has no (source[, range]) signature" % v[1], rel(f["loc"])))
+                continue
+            src = unmut(v[2][h_src])
+            mine = V("param:" + fa.param_names[my_src])
+            src_ok = src == mine or (is_call_to(src, lambda s_: s_.endswith("Cursor::<T>::new")) and src[2] and unmut(src[2][0]) == mine)
+            if h_rng is None:
+                # the callee is itself a full-range entry point (checked in its own right): only an entry point without a range may go through it
+                n_full += 1
+                obs.append(Ob("R-PARTIAL-SAME", f["path"], "full-range entry forwards to a full-range entry", my_rng is None and src_ok,
+                              "forwards to %s with source %s%s" % (v[1].rpartition("::")[2], tstr(src)[:40], "" if my_rng is None else " — dropping its own range parameter"), rel(f["loc"])))
+                continue
+            rng = unmut(v[2][h_rng])
+            if my_rng is not None:
+                n_part += 1
+                ok = rng == V("param:" + fa.param_names[my_rng])
             else:
-                ok = is_call_to(rng, lambda s: s == "core::ops::range::RangeFull") or (isinstance(rng, tuple) and rng[0] == "struct" and rng[1] == "core::ops::range::RangeFull")
-            src = v[2][0]
-            src_ok = src == V("param:input") or (is_call_to(src, lambda s: s.endswith("Cursor::<T>::new")) and src[2] and src[2][0] == V("param:bytes"))
-            obs.append(Ob("R-PARTIAL-SAME", f["path"], "opener called with %s" % ("the caller's range" if partial else "the full range `..`"), ok and src_ok, "range argument = %s" % tstr(rng)[:60], rel(f["loc"])))
-    # wrappers of wrappers (from_bytes*) forward unchanged
-    wn = set(f["path"] for f in wrappers)
-    for f in ctx.user_fns():
-        if f["vis"] == "pub" and f["path"] not in wn and any(c["fn"] in wn for c in calls(f["body"])):
-            fa = ctx.fa(f)
-            for p in fa.paths:
-                v = unmut(p.value)
-                ok = is_call_to(v, lambda s: s in wn)
-                if ok and "partial" in f["path"].rpartition("::")[2]:
-                    ok = "partial" in v[1] and V("param:tiles_filter_range") in v[2]
-                elif ok:
-                    ok = "partial" not in v[1]
-                obs.append(Ob("R-PARTIAL-SAME", f["path"], "bytes wrapper forwards to the matching reader entry", ok, "returns %s" % tstr(v)[:80], rel(f["loc"])))
+                n_full += 1
+                ok = is_call_to(rng, lambda s_: s_ == "core::ops::range::RangeFull") or (isinstance(rng, tuple) and rng[0] == "struct" and rng[1] == "core::ops::range::RangeFull")
+            obs.append(Ob("R-PARTIAL-SAME", f["path"], "opener called with %s" % ("the caller's range" if my_rng is not None else "the full range `..`"), ok and src_ok,
+                          "range argument = %s, source = %s" % (tstr(rng)[:60], tstr(src)[:40]), rel(f["loc"])))
+    if not n_full or not n_part:
+        obs.append(Ob("R-PARTIAL-SAME", "<anchor>", "full and partial entry points", False, "found %d full and %d partial entry paths" % (n_full, n_part)))
     return obs
 
 
@@ -1306,8 +1335,10 @@ def r_hilbert_call(ctx):
     dec = [f for f in ctx.user_fns() if any("h2xy_discrete" in c["fn"] for c in calls(f["body"]))]
     if not enc or not dec:
         return no_anchor("R-HILBERT-CALL", "coordinate/id conversions (callers of hilbert_2d::xy2h_discrete / h2xy_discrete)")
+    global _FA
     for f in enc:
         fa = ctx.fa(f)
+        _FA = fa
         # the conversion's parameters by role, not by name: the zoom is the one u8, x and y are the other two in signature order
         tys = [fa.var_types.get(fa.params.get(n)) for n in fa.param_names]
         zs = [n for n, t in zip(fa.param_names, tys) if t == "u8"]
@@ -1331,7 +1362,7 @@ def r_hilbert_call(ctx):
             base = [k for k in av[1] if k not in hterm]
             # 1 + Σ_{1≤i<z} 4^i  =  Σ_{0≤i<z} 4^i
             ok_base = len(hterm) == 1 and av[1][hterm[0]] == 1 and len(base) == 1 and av[1][base[0]] == 1 and \
-                ((av[0] == 1 and _is_pow4_sum(base[0], P.get("z"))) or (av[0] == 0 and _is_pow4_sum(base[0], P.get("z"), 0)))
+                ((av[0] == 1 and _is_pow4_sum(base[0], P.get("z"))) or (av[0] == 0 and _is_pow4_sum(base[0], P.get("z"), 0)) or _zoom_base_fold(av[0], base[0], P.get("z")))
             obs.append(Ob("R-HILBERT-CALL", f["path"], "id = 1 + Σ_{1≤i<z} 4^i + position", ok_base, "returns %s" % aff_str(av)[:160], rel(f["loc"])))
             nc = absint.narrowing_casts(v)
             obs.append(Ob("R-HILBERT-CALL", f["path"], "the id is not truncated on the way out", not nc, ("narrowing cast(s): %s" % ", ".join("%s as %s" % (c[3], c[1]) for c in nc)) if nc else "no narrowing cast in the returned id", hc[0].loc()))
@@ -1339,6 +1370,7 @@ def r_hilbert_call(ctx):
             obs.append(Ob("R-HILBERT-CALL", f["path"], "zoom 0 is answered without the curve (id 0)", False, "no path returns before the Hilbert call: zoom 0 would get id 1 + position", rel(f["loc"])))
     for f in dec:
         fa = ctx.fa(f)
+        _FA = fa
         tid = V("param:" + fa.param_names[0]) if len(fa.param_names) == 1 else V("param:tile_id")
         if not any(p.exit == "ok" and not [e for e in p.events if e.kind == "call" and "h2xy_discrete" in e.d["fn"]] for p in fa.paths):
             obs.append(Ob("R-HILBERT-CALL", f["path"], "id 0 is answered without the curve (0/0/0)", False, "no success path returns before the Hilbert call", rel(f["loc"])))
@@ -1357,7 +1389,7 @@ def r_hilbert_call(ctx):
             ha = affine(_strip_cast(a[0]))
             base = [k for k in ha[1] if k != tid]
             ok_h = ha[1].get(tid) == 1 and len(base) == 1 and ha[1][base[0]] == -1 and is_call_to(a[2], lambda s: s.endswith("Variant::Hilbert")) and \
-                ((ha[0] == -1 and _is_pow4_sum(base[0], z)) or (ha[0] == 0 and _is_pow4_sum(base[0], z, 0)))
+                ((ha[0] == -1 and _is_pow4_sum(base[0], z)) or (ha[0] == 0 and _is_pow4_sum(base[0], z, 0)) or _zoom_base_fold(-ha[0], base[0], z))
             obs.append(Ob("R-HILBERT-CALL", f["path"], "position = id − (1 + Σ_{1≤i<z} 4^i), decoded with h2xy_discrete(_, z, Hilbert)", ok_h, "first argument %s" % aff_str(ha)[:140], hc[0].loc()))
             r = unmut(hc[0].d["ret"])
             ok_t = tup is not None and tup[0] == "tup" and len(tup[1]) == 3 and tup[1][0] == z and _strip_cast(tup[1][1]) == ("proj", r, 0) and _strip_cast(tup[1][2]) == ("proj", r, 1) and z[0] == "call"
@@ -1367,8 +1399,39 @@ def r_hilbert_call(ctx):
     return obs
 
 
+def _zoom_base_fold(const, t, z):
+    """const + fold(..)  =  1 + Σ_{1≤i<z} 4^i   (the constant may sit outside the fold, in its seed, or be the i = 0 term)"""
+    return (const == 0 and (_is_pow4_fold(t, z, 1, 1) or _is_pow4_fold(t, z, 0, 0))) or (const == 1 and _is_pow4_fold(t, z, 1, 0))
+
+
 def _is_eq0(c, what, outcome):
     return c[0] == "bin" and c[1] == "==" and {c[2], c[3]} == {what, C(0)} and outcome is True
+
+
+_FA = None
+
+
+def _is_pow4_fold(t, z, start, init):
+    """fold(start..z, init, |acc, i| acc + 4^i)  =  init + Σ_{start≤i<z} 4^i"""
+    if not (is_call_to(t, lambda s: s.endswith("Iterator::fold")) and len(t[2]) == 3):
+        return False
+    rng, ini, clos = t[2]
+    if not (rng[0] == "struct" and rng[1] == "core::ops::range::Range" and struct_field(rng, "start") == C(start) and _strip_cast(struct_field(rng, "end")) == z):
+        return False
+    if unmut(ini) != C(init) or clos[0] != "clos" or not clos[2] or _FA is None:
+        return False
+    node = getattr(_FA, "clos_nodes", {}).get(clos[1])
+    if node is None or len(node["params"]) != 2 or any(p.get("k") != "Bind" for p in node["params"]):
+        return False
+    acc, i = (V("clos%s:%s" % (clos[1], p["name"])) for p in node["params"])
+    body = unmut(clos[2][0])
+    if not (body[0] == "bin" and body[1] == "+"):
+        return False
+    for a, b in ((body[2], body[3]), (body[3], body[2])):
+        a, b = unmut(a), unmut(b)
+        if a == acc and is_call_to(b, lambda s: s.endswith("::pow")) and len(b[2]) == 2 and b[2][0] == C(4) and _strip_cast(b[2][1]) == i:
+            return True
+    return False
 
 
 def _is_pow4_sum(t, z, start=1):
